@@ -523,6 +523,28 @@ func (x *Exec) applyCallee(st *State, ins ssa.Instruction, c *ssa.CallCommon, ar
 		x.oblige(st, "requires", fmt.Sprintf("%s@%d.%s", shortCallee(names[0]), x.ordinals[ins], label), t, ins.Pos(), cl.Expr)
 		st.assume(t)
 	}
+	// calls that never return end the path here
+	for _, cl := range ctr.NoReturn {
+		env := x.newCalleeEnv(st, ctr, c)
+		bind(env)
+		t, err := env.evalBool(cl.Expr)
+		if err != nil {
+			panic(fmt.Sprintf("%s:%d: noreturn at call in %s: %v", cl.File, cl.Line, x.funcName(), err))
+		}
+		if t.S == "true" {
+			st.trace = append(st.trace, -3)
+			x.pathEnd(st, "call never returns")
+			st.dead = true
+			return x.freshValue(st, "noret", rt)
+		}
+		if t.S != "false" {
+			st2 := st.clone()
+			st2.assume(t)
+			st2.trace = append(st2.trace, -3)
+			x.pathEnd(st2, "call never returns")
+			st.assume(mkNot(t))
+		}
+	}
 	pre := st.clone()
 	var res Value
 	if !ctr.Pure {
@@ -557,7 +579,9 @@ func (x *Exec) applyCallee(st *State, ins ssa.Instruction, c *ssa.CallCommon, ar
 				}
 			}
 		} else {
-			x.havocPointees(st, c, args)
+			// neutral: only cells/objects directly pointed to by pointer arguments; memory of slice
+			// arguments is NOT modified (read-like externs must say `modifies mem(buf)`)
+			x.havocPointeesOnly(st, c, args)
 		}
 		res = x.freshValue(st, "ret_"+shortCallee(names[0]), rt)
 		if ctr.Sticky && len(res.L) == 1 {
@@ -657,8 +681,21 @@ func shortCallee(n string) string {
 	return n
 }
 
-// havocPointees forgets local cells (and heap objects) directly pointed to by pointer arguments.
 func (x *Exec) havocPointees(st *State, c *ssa.CallCommon, args []Value) {
+	x.havocPointeesOnly(st, c, args)
+	// slices passed to unknown callees may be written through
+	for _, a := range args {
+		if sl, ok := a.T.Underlying().(*types.Slice); ok && len(a.L) == 4 {
+			for _, lf := range flatten(sl.Elem()) {
+				cur := x.heapCurE(st, "M", sl.Elem(), lf)
+				x.heapSet(st, "M", sl.Elem(), lf, mkStore(cur, a.sliceArr(), x.fresh(st, "outarg_mem", arrSort(lf.Sort))))
+			}
+		}
+	}
+}
+
+// havocPointeesOnly forgets local cells (and heap objects) directly pointed to by pointer arguments.
+func (x *Exec) havocPointeesOnly(st *State, c *ssa.CallCommon, args []Value) {
 	for _, a := range args {
 		if a.P == nil {
 			continue
@@ -693,15 +730,6 @@ func (x *Exec) havocPointees(st *State, c *ssa.CallCommon, args []Value) {
 			for _, lf := range flatten(p.Base) {
 				cur := x.heapCurE(st, "M", p.Base, lf)
 				x.heapSet(st, "M", p.Base, lf, mkStore(cur, p.Obj, x.fresh(st, "outarg_arr", arrSort(lf.Sort))))
-			}
-		}
-	}
-	// slices passed to unknown callees may be written through
-	for _, a := range args {
-		if sl, ok := a.T.Underlying().(*types.Slice); ok && len(a.L) == 4 {
-			for _, lf := range flatten(sl.Elem()) {
-				cur := x.heapCurE(st, "M", sl.Elem(), lf)
-				x.heapSet(st, "M", sl.Elem(), lf, mkStore(cur, a.sliceArr(), x.fresh(st, "outarg_mem", arrSort(lf.Sort))))
 			}
 		}
 	}
